@@ -153,6 +153,12 @@ func findPrinterStringBranches(w *World, e *Engine) (*printerStringBranches, str
 						isKw = true
 					}
 				}
+				// the test through a predicate of the module that is the prefix test and nothing else (Keyword_Q)
+				if c, ok := a.v.(*ssa.Call); ok && a.pol && c.Call.StaticCallee() != nil && inModule(c.Call.StaticCallee()) && len(c.Call.StaticCallee().Blocks) > 0 {
+					if trueOnlyWithPrefix(c.Call.StaticCallee(), ps.marker) {
+						isKw = true
+					}
+				}
 			}
 			switch {
 			case isKw:
@@ -377,6 +383,7 @@ func checkC06(w *World, r *Report) {
 	printerRules(w, r, "C06.one-escaper")
 	intInverseRule(w, r, "C06.int")
 	scannerConfigRule(w, r, "C06.token-rules")
+	printedTextNotFormatRule(w, r, "C06.text-not-format")
 	// what the printer writes as two values is read as two: the value an atom reads as depends on its one token
 	leafReaderRule(w, r, "C06.one-token")
 	literalTableRule(w, r, e, "C06.literals")
@@ -564,6 +571,12 @@ func checkC06(w *World, r *Report) {
 				markers["printer"] = s
 			}
 		}
+		// ... or the predicate of the module the branch asks instead
+		if c, ok := a.v.(*ssa.Call); ok && a.pol && markers["printer"] == "" {
+			if g := c.Call.StaticCallee(); g != nil && inModule(g) && len(g.Blocks) > 0 && trueOnlyWithPrefix(g, ps.marker) {
+				markers["printer"] = ps.marker
+			}
+		}
 	}
 	if fn := w.builtin("type?"); fn != nil {
 		if s, ok := markerOf(fn, 0); ok {
@@ -641,16 +654,22 @@ func checkC06(w *World, r *Report) {
 		for _, rt := range (&evalModel{}).returns(fn) {
 			ret := rt[0].(*ssa.Return)
 			parts := concatParts(rt[1].(ssa.Value))
-			if len(parts) != 3 {
-				continue
-			}
-			o, ok1 := constString(parts[0])
-			cl, ok2 := constString(parts[2])
-			if !ok1 || !ok2 {
-				continue
-			}
-			if c, ok := parts[1].(*ssa.Call); !ok || !isStringsFn(c, "Join") {
-				continue
+			var o, cl string
+			if bo, bc, ok := builderBrackets(rt[1].(ssa.Value)); ok {
+				o, cl = bo, bc
+			} else {
+				if len(parts) != 3 {
+					continue
+				}
+				var ok1, ok2 bool
+				o, ok1 = constString(parts[0])
+				cl, ok2 = constString(parts[2])
+				if !ok1 || !ok2 {
+					continue
+				}
+				if c, ok := parts[1].(*ssa.Call); !ok || !isStringsFn(c, "Join") {
+					continue
+				}
 			}
 			if fn == ps.fn {
 				for _, f := range e.holding(ret.Block()).list() {
@@ -849,13 +868,21 @@ func checkC16(w *World, r *Report) {
 		for _, b := range g.Blocks {
 			for _, in := range b.Instrs {
 				c, ok := in.(*ssa.Call)
-				if !ok || c.Call.StaticCallee() == nil || c.Call.StaticCallee().Name() != "New" || c.Call.StaticCallee().Pkg.Pkg.Path() != "errors" {
+				if !ok || c.Call.StaticCallee() == nil {
 					continue
 				}
-				parts := concatParts(c.Call.Args[0])
-				for _, p := range parts {
-					if closerVals[p] && (tmplCall == nil || strings.Contains(strings.Join(constParts(parts), ""), "EOF")) {
-						tmplParts, tmplCall = parts, c
+				// errors.New, or a function of the module that makes an error of the text it is handed
+				if callee := c.Call.StaticCallee(); !(callee.Name() == "New" && fnPkgPath(callee) == "errors") {
+					if _, _, ok := errTextMaker(callee); !ok {
+						continue
+					}
+				}
+				if a, ok := msgArg(c); ok {
+					parts := concatParts(a)
+					for _, p := range parts {
+						if closerVals[p] && (tmplCall == nil || strings.Contains(strings.Join(constParts(parts), ""), "EOF")) {
+							tmplParts, tmplCall = parts, c
+						}
 					}
 				}
 			}
@@ -887,13 +914,18 @@ func checkC16(w *World, r *Report) {
 	suffix, _ := constString(tmplParts[len(tmplParts)-1])
 	for _, b := range readAtom.Blocks {
 		for _, in := range b.Instrs {
-			if c, ok := in.(*ssa.Call); ok && c.Call.StaticCallee() != nil && c.Call.StaticCallee().Name() == "New" && c.Call.StaticCallee().Pkg.Pkg.Path() == "errors" {
-				if s, ok := constString(c.Call.Args[0]); ok && strings.HasPrefix(s, prefix) && strings.HasSuffix(s, suffix) {
+			if c, ok := in.(*ssa.Call); ok && c.Call.StaticCallee() != nil {
+				a, isMsg := msgArg(c)
+				if !isMsg || c.Call.StaticCallee().Name() == "Errorf" || c.Call.StaticCallee().Name() == "Sprintf" {
+					continue
+				}
+				if s, ok := constString(a); ok && strings.HasPrefix(s, prefix) && strings.HasSuffix(s, suffix) {
 					readerMsgs[s] = true
 				}
 			}
 		}
 	}
+	wholeFileRule(w, r, "C16.whole-file")
 	replAccumulateRule(w, r, multi, "C16.repl-reset")
 	leafReaderRule(w, r, "C16.one-token")
 	peekNextRule(w, r, "C16.peek-next")
@@ -917,15 +949,14 @@ func checkC16(w *World, r *Report) {
 				if !ok || c.Call.StaticCallee() == nil || len(c.Call.Args) == 0 {
 					continue
 				}
-				switch fnPkgPath(c.Call.StaticCallee()) + "." + c.Call.StaticCallee().Name() {
-				case "errors.New", "fmt.Errorf", "fmt.Sprintf":
-				default:
+				text, isMsg := msgArg(c)
+				if !isMsg {
 					continue
 				}
-				parts := concatParts(c.Call.Args[0])
+				parts := concatParts(text)
 				first, _ := constString(parts[0])
 				last, _ := constString(parts[len(parts)-1])
-				whole, isConst := constString(c.Call.Args[0])
+				whole, isConst := constString(text)
 				shaped := (len(parts) > 1 && first != "" && strings.HasPrefix(first, prefix) && strings.HasSuffix(last, suffix) && suffix != "") ||
 					(isConst && strings.HasPrefix(whole, prefix) && strings.HasSuffix(whole, suffix) && suffix != "")
 				if !shaped {
@@ -981,6 +1012,9 @@ func checkC16(w *World, r *Report) {
 	r.check(okAssert, "C16.type", multi, "error type tested by the classifier", multi.Pos(), "lisperror.LispError", "the classifier does not test for lisperror.LispError")
 	// reader builds the EOF error as NewLispError(errors.New(..), token)
 	okBuild := false
+	if _, viaLisp, ok := errTextMaker(tmplCall.Call.StaticCallee()); ok && viaLisp {
+		okBuild = true
+	}
 	for _, ref := range *tmplCall.Referrers() {
 		if ci, ok := ref.(*ssa.ChangeInterface); ok {
 			for _, r2 := range *ci.Referrers() {
@@ -1135,23 +1169,7 @@ func checkC16(w *World, r *Report) {
 		}
 	}
 	r.check(okSite && inLoop, "C16.eof-site", readList, "EOF error site", tmplCall.Pos(), "raised in the element loop when peek returns no token", "the EOF error is not raised at the nil-peek branch of the element loop")
-	// join
-	if ex := w.Fn("repl", "Execute"); ex != nil {
-		okJoin, found := false, false
-		for _, b := range ex.Blocks {
-			for _, in := range b.Instrs {
-				if c, ok := in.(*ssa.Call); ok && isStringsFn(c, "Join") {
-					found = true
-					if s, ok := constString(c.Call.Args[1]); ok && s == "\n" {
-						okJoin = true
-					}
-				}
-			}
-		}
-		r.check(found && okJoin, "C16.join", ex, "separator of accumulated lines", ex.Pos(), "a line break", "accumulated lines are not joined with a line break: a comment on one line swallows the following lines")
-	} else {
-		r.undecided("C16.join", nil, "repl.Execute", token.NoPos, "function no longer resolves")
-	}
+	replJoinRule(w, r, "C16.join")
 	r.Assumptions = append(r.Assumptions, "brackets inside strings and comments are handled by the trusted scanner (single tokens / skipped); 'a complete expression is never reported as incomplete' is decided only through the EOF site rule")
 }
 
@@ -1184,6 +1202,9 @@ func checkC15(w *World, r *Report) {
 					continue
 				}
 				p := fnPkgPath(callee)
+				if p == modPath+"/reader" && e.alwaysErr(callee, 0) {
+					continue // makes an error: hands back no value
+				}
 				if (p == modPath+"/reader" && !w.isTokenNext(callee) && !w.isTokenPeek(callee)) || p == modPath+"/printer" {
 					okData = false
 					r.bad("C15.data", rp, "call "+callee.Name(), c.Pos(), "the placeholder value is re-read or printed instead of being inserted as data")
@@ -1580,7 +1601,7 @@ func checkC15(w *World, r *Report) {
 		}
 		if !okR {
 			// taken only for strings without LF
-			for _, b := range ps.strFn.Blocks {
+			for _, b := range ps.rawRet.Parent().Blocks {
 				iff := blockIf(b)
 				if iff == nil {
 					continue
@@ -1598,7 +1619,17 @@ func checkC15(w *World, r *Report) {
 			}
 			// conditions combined with && are lowered to several blocks: look at all dominating facts
 			if !okR {
-				okR = dominatedByNotContainsLF(ps.strFn, ps.rawRet.Block())
+				okR = dominatedByNotContainsLF(ps.rawRet.Parent(), ps.rawRet.Block())
+			}
+			// the raw form built by a function of its own: the test stands at each of its calls
+			if h := ps.rawRet.Parent(); !okR && h != ps.fn && h.Object() != nil && !h.Object().Exported() && !e.escapedFn(h) {
+				sites := e.callSites(h)
+				okR = len(sites) > 0
+				for _, site := range sites {
+					if site.Parent() == nil || site.Parent().Pkg != h.Pkg || !dominatedByNotContainsLF(site.Parent(), site.Block()) {
+						okR = false
+					}
+				}
 			}
 		}
 		r.check(okR, "C15.line-safe", ps.fn, "raw form", ps.rawRet.Pos(), "taken only for strings without LF (or LF is mapped)", "the raw form emits line breaks verbatim, but the preamble is line-oriented: a multi-line value cannot be read back (a reader-side repair would equally resolve this)")
@@ -1709,6 +1740,45 @@ func checkC15(w *World, r *Report) {
 		}
 	}
 	r.floor("C15.stop", "exits of the preamble loop into the reader", nstop, 2)
+	// ... and the first blank line does end the preamble: from the branch taken for an empty line no path leads
+	// round the loop again (a loop that skips blank lines eats the blank lines the program itself begins with,
+	// and every row of the program is counted short by that many)
+	nblank := 0
+	for _, l := range naturalLoops(rwp) {
+		lb := loopBlocks(l)
+		for d := range lb {
+			iff := blockIf(d)
+			if iff == nil {
+				continue
+			}
+			bo, ok := iff.Cond.(*ssa.BinOp)
+			if !ok || (bo.Op != token.EQL && bo.Op != token.NEQ) {
+				continue
+			}
+			isEmptyTest := false
+			if k, ok := bo.Y.(*ssa.Const); ok && k.Value != nil {
+				if c, isCall := bo.X.(*ssa.Call); isCall && k.Value.Kind() == constant.Int && k.Int64() == 0 {
+					if bi, ok := c.Call.Value.(*ssa.Builtin); ok && bi.Name() == "len" && isStringVal(c.Call.Args[0]) {
+						isEmptyTest = true
+					}
+				}
+				if sv, ok := constString(bo.Y); ok && sv == "" && isStringVal(bo.X) {
+					isEmptyTest = true
+				}
+			}
+			if !isEmptyTest {
+				continue
+			}
+			nblank++
+			t := d.Succs[0]
+			if bo.Op == token.NEQ {
+				t = d.Succs[1]
+			}
+			again := t == l.header || blockReaches(t, l.header, false)
+			r.check(!again, "C15.stop", rwp, "what follows a blank line", instrPos(iff), "the rest of the text goes to the reader", "after a blank line the preamble loop can go round again: blank lines at the head of the program are swallowed with the separator, so every row of the program is counted short")
+		}
+	}
+	r.floor("C15.stop", "empty-line tests in the preamble loop", nblank, 1)
 	r.Assumptions = append(r.Assumptions, "equality of the resulting AST with the substituted AST is not decided; a preamble value that cannot be read is silently nil (the existing test suite relies on it for Go structs, see DESIGN.md): for data values this cannot happen once C06/C15.line-safe hold")
 }
 
@@ -2162,4 +2232,266 @@ func (w *World) collectionReaders() []*ssa.Function {
 		}
 	}
 	return out
+}
+
+// builderBrackets: v is the text of a local strings.Builder; the constant written first (the write every other
+// write comes after) and the constant written last (the write right before the text is taken).
+func builderBrackets(v ssa.Value) (string, string, bool) {
+	c, ok := v.(*ssa.Call)
+	if !ok || c.Call.StaticCallee() == nil || c.Call.StaticCallee().Name() != "String" || len(c.Call.Args) != 1 {
+		return "", "", false
+	}
+	al, ok := c.Call.Args[0].(*ssa.Alloc)
+	if !ok || !strings.HasSuffix(al.Type().String(), "strings.Builder") {
+		return "", "", false
+	}
+	var writes []*ssa.Call
+	for _, ref := range *al.Referrers() {
+		w, ok := ref.(*ssa.Call)
+		if !ok {
+			if _, isDbg := ref.(*ssa.DebugRef); isDbg {
+				continue
+			}
+			return "", "", false // the builder is handed elsewhere
+		}
+		if w == c {
+			continue
+		}
+		callee := w.Call.StaticCallee()
+		if callee == nil || len(w.Call.Args) == 0 || w.Call.Args[0] != ssa.Value(al) {
+			return "", "", false
+		}
+		switch callee.Name() {
+		case "Len", "Cap", "Grow", "String":
+			continue
+		}
+		writes = append(writes, w)
+	}
+	idx := func(in ssa.Instruction) int {
+		for i, x := range in.Block().Instrs {
+			if x == in {
+				return i
+			}
+		}
+		return -1
+	}
+	constOf := func(w *ssa.Call) (string, bool) {
+		if w.Call.StaticCallee().Name() != "WriteString" || len(w.Call.Args) != 2 {
+			return "", false
+		}
+		return constString(w.Call.Args[1])
+	}
+	var first, last *ssa.Call
+	for _, w := range writes {
+		all := true
+		for _, o := range writes {
+			if o == w {
+				continue
+			}
+			if !(w.Block() == o.Block() && idx(w) < idx(o)) && !(w.Block() != o.Block() && w.Block().Dominates(o.Block())) {
+				all = false
+			}
+		}
+		if all {
+			first = w
+		}
+		if w.Block() == c.Block() && idx(w) < idx(c) && (last == nil || idx(w) > idx(last)) {
+			last = w
+		}
+	}
+	if first == nil || last == nil || first == last {
+		return "", "", false
+	}
+	o, ok1 := constOf(first)
+	cl, ok2 := constOf(last)
+	return o, cl, ok1 && ok2
+}
+
+// errTextMaker: fn is a function of the module with one result, an error, that makes it with errors.New from
+// one of its own string parameters as it stands: the parameter's index, and whether the new error is wrapped
+// by NewLispError before it is returned.
+func errTextMaker(fn *ssa.Function) (int, bool, bool) {
+	if fn == nil || len(fn.Blocks) != 1 || !inModule(fn) || fn.Signature.Results().Len() != 1 || !isErrorType(fn.Signature.Results().At(0).Type()) {
+		return 0, false, false
+	}
+	for _, in := range fn.Blocks[0].Instrs {
+		c, ok := in.(*ssa.Call)
+		if !ok || c.Call.StaticCallee() == nil || c.Call.StaticCallee().Name() != "New" || fnPkgPath(c.Call.StaticCallee()) != "errors" {
+			continue
+		}
+		p, ok := c.Call.Args[0].(*ssa.Parameter)
+		if !ok {
+			return 0, false, false
+		}
+		viaLisp := false
+		for _, ref := range *c.Referrers() {
+			if ci, ok := ref.(*ssa.ChangeInterface); ok {
+				for _, r2 := range *ci.Referrers() {
+					if c2, ok := r2.(*ssa.Call); ok && c2.Call.StaticCallee() != nil && c2.Call.StaticCallee().Name() == "NewLispError" {
+						viaLisp = true
+					}
+				}
+			}
+		}
+		for i, q := range fn.Params {
+			if q == p {
+				return i, viaLisp, true
+			}
+		}
+	}
+	return 0, false, false
+}
+
+// msgArg: the message text a call makes an error (or a string) of: errors.New, fmt.Errorf, fmt.Sprintf, or a
+// function of the module that hands its text parameter to errors.New.
+func msgArg(c *ssa.Call) (ssa.Value, bool) {
+	callee := c.Call.StaticCallee()
+	if callee == nil || len(c.Call.Args) == 0 {
+		return nil, false
+	}
+	switch fnPkgPath(callee) + "." + callee.Name() {
+	case "errors.New", "fmt.Errorf", "fmt.Sprintf":
+		return c.Call.Args[0], true
+	}
+	if i, _, ok := errTextMaker(callee); ok && i < len(c.Call.Args) {
+		return c.Call.Args[i], true
+	}
+	return nil, false
+}
+
+// printedTextNotFormatRule: the text the printer made for a value is data. Handed to a formatting function as
+// the format, every percent sign in it is taken for a verb: the text comes out rewritten and reads back as
+// another value (or as several).
+func printedTextNotFormatRule(w *World, r *Report, rule string) {
+	r.rule(rule, "in package printer every call of a formatting function of fmt (Sprintf, Fprintf, Printf, Errorf, Appendf, Sscanf ...) has a constant format: no printed text is ever interpreted as a format")
+	n := 0
+	for _, fn := range w.pkgFuncs("printer") {
+		if isTestFunc(w, fn) {
+			continue
+		}
+		for _, b := range fn.Blocks {
+			for _, in := range b.Instrs {
+				c, ok := in.(*ssa.Call)
+				if !ok || c.Call.StaticCallee() == nil || fnPkgPath(c.Call.StaticCallee()) != "fmt" || !strings.HasSuffix(c.Call.StaticCallee().Name(), "f") {
+					continue
+				}
+				sig := c.Call.StaticCallee().Signature
+				fi := sig.Params().Len() - 2 // the format stands before the variadic operands
+				if !sig.Variadic() || fi < 0 || fi >= len(c.Call.Args) || !isStringVal(c.Call.Args[fi]) {
+					continue
+				}
+				n++
+				_, isConst := constString(c.Call.Args[fi])
+				r.check(isConst, rule, fn, "format of fmt."+c.Call.StaticCallee().Name(), c.Pos(), "a constant", "a computed text is used as the format: a percent sign in a printed value is taken for a verb (\"100%\" comes out as \"100%!(NOVERB)\"), so the text no longer reads back as the value")
+			}
+		}
+	}
+	r.add(rule, nil, "formatting calls of package printer", token.NoPos, "ok", fmt.Sprintf("%d calls examined", n))
+}
+
+// wholeFileRule: the text of a file reaches the reader whole or not at all. A bufio.Scanner stops at the first
+// line longer than its buffer exactly as it stops at the end of the file; only its Err tells the two apart. A
+// slurp that does not ask hands the reader a text cut short: a complete program is then reported as ending
+// inside an open bracket, or the rest of the file is silently never read.
+func wholeFileRule(w *World, r *Report, rule string) {
+	r.rule(rule, "in the functions of the slurp builtin (the text load-file hands to the reader) every bufio.Scanner that is advanced with Scan is asked for its Err in the same function: a file is never taken to end where the scanner merely gave up")
+	sl := w.builtin("slurp")
+	if sl == nil {
+		r.undecided(rule, nil, "slurp builtin", token.NoPos, "function no longer resolves")
+		return
+	}
+	n := 0
+	for _, fn := range w.withPkgHelpersOf(sl) {
+		if fn == nil {
+			continue
+		}
+		scans := map[ssa.Value]*ssa.Call{}
+		asked := map[ssa.Value]bool{}
+		for _, b := range fn.Blocks {
+			for _, in := range b.Instrs {
+				c, ok := in.(*ssa.Call)
+				if !ok || c.Call.StaticCallee() == nil || fnPkgPath(c.Call.StaticCallee()) != "bufio" || c.Call.StaticCallee().Signature.Recv() == nil || len(c.Call.Args) == 0 {
+					continue
+				}
+				if !strings.HasSuffix(c.Call.StaticCallee().Signature.Recv().Type().String(), "bufio.Scanner") {
+					continue
+				}
+				switch c.Call.StaticCallee().Name() {
+				case "Scan":
+					scans[c.Call.Args[0]] = c
+				case "Err":
+					asked[c.Call.Args[0]] = true
+				}
+			}
+		}
+		for sc, c := range scans {
+			n++
+			r.check(asked[sc], rule, fn, "end of the line scanner's loop", c.Pos(), "Err consulted", "the scanner's Err is never consulted: at a line longer than the scanner's buffer the loop ends as at the end of the file and the text handed to the reader stops there (a complete file reads as incomplete, or its rest is silently dropped)")
+		}
+	}
+	r.add(rule, sl, "line scanners in slurp", token.NoPos, "ok", fmt.Sprintf("%d scanners examined", n))
+}
+
+// replJoinRule: the REPL hands the lines of a form typed over several lines to the reader joined with the line
+// break they were typed with (a comment ends at its line break).
+func replJoinRule(w *World, r *Report, rule string) {
+	if ex := w.Fn("repl", "Execute"); ex != nil {
+		okJoin, found := false, false
+		for _, b := range ex.Blocks {
+			for _, in := range b.Instrs {
+				if c, ok := in.(*ssa.Call); ok && isStringsFn(c, "Join") {
+					found = true
+					if s, ok := constString(c.Call.Args[1]); ok && s == "\n" {
+						okJoin = true
+					}
+				}
+			}
+		}
+		r.check(found && okJoin, rule, ex, "separator of accumulated lines", ex.Pos(), "a line break", "accumulated lines are not joined with a line break: a comment on one line swallows the following lines")
+	} else {
+		r.undecided(rule, nil, "repl.Execute", token.NoPos, "function no longer resolves")
+	}
+}
+
+// trueOnlyWithPrefix: every return of the predicate h hands back false or the outcome of strings.HasPrefix(_, marker)
+// (possibly merged): it answers true only for strings that begin with the marker.
+func trueOnlyWithPrefix(h *ssa.Function, marker string) bool {
+	var okVal func(v ssa.Value, depth int) bool
+	okVal = func(v ssa.Value, depth int) bool {
+		if depth > 4 {
+			return false
+		}
+		switch x := v.(type) {
+		case *ssa.Const:
+			return x.Value != nil && x.Value.Kind() == constant.Bool && !constant.BoolVal(x.Value)
+		case *ssa.Call:
+			if isStringsFn(x, "HasPrefix") {
+				s, ok := constString(x.Call.Args[1])
+				return ok && s == marker
+			}
+		case *ssa.Phi:
+			for _, op := range x.Edges {
+				if !okVal(op, depth+1) {
+					return false
+				}
+			}
+			return true
+		}
+		return false
+	}
+	n := 0
+	for _, b := range h.Blocks {
+		if len(b.Instrs) == 0 {
+			continue
+		}
+		ret, ok := b.Instrs[len(b.Instrs)-1].(*ssa.Return)
+		if !ok {
+			continue
+		}
+		if len(ret.Results) != 1 || !okVal(ret.Results[0], 0) {
+			return false
+		}
+		n++
+	}
+	return n > 0
 }
